@@ -5,6 +5,7 @@
   Model: SnowModel/OpCond.lean, instantiated at ℝ.
 -/
 import SnowProofs.Lemmas.OpCond
+import SnowProofs.Lemmas.Tracks
 import Mathlib.Data.List.Sort
 
 namespace Snow.C05
@@ -18,6 +19,7 @@ structure WF (oc : OpCond ℝ) (dt : ℝ) : Prop where
   ttot_nonneg : 0 ≤ oc.t_tot
   desc : Desc oc.start oc.holds
   stop_le : oc.stop ≤ lastTemp oc.start oc.holds
+  dur_nonneg : ∀ x ∈ oc.holds, 0 ≤ x.duration
 
 /-- **one value per simulation step**, for every numeric instance (also `Float`):
 the profile has exactly `ceil(t_tot/dt) + 1` samples. -/
@@ -172,6 +174,65 @@ theorem segment_slip (Ts Th rate d dt : ℝ) (hdt : 0 < dt) (hr : 0 < rate) (hle
   rw [hm]
   constructor <;> nlinarith [hh.1, hh.2]
 
+/-- **agrees with the continuous piecewise-linear program to within one step per program
+segment**: every sample `k` equals the continuous program `prog` at a time `τ` with
+`|τ − k·dt| ≤ 2·dt·(#holds + 1)` — one step for each ramp and one for each hold (the final
+ramp and plateau included). Since `prog` changes by at most `rate` per unit time this is the
+temperature bound `(#segments)·rate·dt` of the property. -/
+theorem profile_tracks_program (oc : OpCond ℝ) (dt : ℝ) (h : WF oc dt) (k : Nat)
+    (hk : k < (profile oc dt).length) :
+    ∃ τ : ℝ, 0 ≤ τ ∧ |τ - (k : ℝ) * dt| ≤ 2 * dt * ((oc.holds.length : ℝ) + 1) ∧
+      (profile oc dt)[k]? = some (prog oc.rate oc.start (allHolds oc) τ) := by
+  have hdt := h.dt_pos
+  have hr := h.rate_pos
+  have hd : Desc oc.start (allHolds oc) := desc_append_singleton h.desc h.stop_le
+  have hdur : ∀ x ∈ allHolds oc, 0 ≤ x.duration := by
+    intro x hx
+    simp only [allHolds, List.mem_append, List.mem_singleton] at hx
+    rcases hx with hx | rfl
+    · exact h.dur_nonneg x hx
+    · exact h.ttot_nonneg
+  have hlenH : ((allHolds oc).length : ℝ) = (oc.holds.length : ℝ) + 1 := by
+    simp [allHolds]
+  have hlast : lastTemp oc.start (allHolds oc) = oc.stop := by
+    simp [allHolds, lastTemp_append_singleton]
+  set segs := segments oc.rate dt oc.start (allHolds oc) with hsegs
+  set n := nSteps oc.t_tot dt with hn
+  have hprof : profile oc dt = segs.take n ++ List.replicate (n - (segs.take n).length) oc.stop := rfl
+  have hkn : k < n := by rw [profile_length] at hk; exact hk
+  by_cases hks : k < segs.length
+  · -- a sample of the concatenated segments
+    obtain ⟨τ, hτ0, hτb, hτe⟩ := tracks_segments hdt hr (allHolds oc) oc.start hd hdur k hks
+    refine ⟨τ, hτ0, by rw [← hlenH]; exact hτb, ?_⟩
+    rw [hprof, List.getElem?_append_left (by simp [List.length_take]; omega), List.getElem?_take_of_lt hkn]
+    exact hτe
+  · -- a padded sample: the program has reached the end temperature (up to the slip)
+    have hks' : segs.length ≤ k := not_lt.mp hks
+    have htake : segs.take n = segs := List.take_of_length_le (by omega)
+    have hval : (profile oc dt)[k]? = some oc.stop := by
+      rw [hprof, htake, List.getElem?_append_right hks', List.getElem?_replicate, if_pos (by omega)]
+    have hge := segments_length_ge hdt hr (allHolds oc) oc.start hd hdur
+    rw [hlast, hlenH] at hge
+    have hsum : ((allHolds oc).map (·.duration)).sum = (oc.holds.map (·.duration)).sum + oc.t_tot := by
+      simp [allHolds]
+    have hdrop : (allHolds oc).dropLast = oc.holds := by simp [allHolds]
+    rw [hsum] at hge
+    set reach := (oc.start - oc.stop) / oc.rate + (oc.holds.map (·.duration)).sum with hreach
+    have hkM : (segs.length : ℝ) * dt ≤ (k : ℝ) * dt := by
+      have : (segs.length : ℝ) ≤ (k : ℝ) := by exact_mod_cast hks'
+      gcongr
+    have hfin := prog_final hr (allHolds oc) oc.start hd hdur (Max.max ((k : ℝ) * dt) reach)
+      (by rw [hlast, hdrop]; exact le_max_right _ _)
+    rw [hlast] at hfin
+    have hk0 : 0 ≤ (k : ℝ) * dt := by positivity
+    have hH : (0 : ℝ) ≤ (oc.holds.length : ℝ) := Nat.cast_nonneg _
+    refine ⟨Max.max ((k : ℝ) * dt) reach, le_trans hk0 (le_max_left _ _), ?_, by rw [hval, hfin]⟩
+    rcases le_total reach ((k : ℝ) * dt) with hm | hm
+    · rw [max_eq_left hm]; simp only [sub_self, abs_zero]; nlinarith
+    · rw [max_eq_right hm, abs_of_nonneg (by linarith)]
+      have := h.ttot_nonneg
+      nlinarith
+
 /-! ### order independence -/
 
 theorem holdGe_iff (a b : Hold ℝ) :
@@ -232,6 +293,47 @@ theorem orderHolds_desc (hs : List (Hold ℝ)) :
   · exact le_of_lt h
   · exact le_of_eq h.symm
 
+/-! ### the constructor establishes `WF` -/
+
+theorem desc_of_pairwise {Ts : ℝ} {l : List (Hold ℝ)}
+    (hp : l.Pairwise (fun a b => b.temp ≤ a.temp)) (hle : ∀ h ∈ l, h.temp ≤ Ts) : Desc Ts l := by
+  induction l generalizing Ts with
+  | nil => trivial
+  | cons a t ih =>
+    rw [List.pairwise_cons] at hp
+    exact ⟨hle a (by simp), ih hp.2 (fun h hh => hp.1 h hh)⟩
+
+theorem lastTemp_mem (Ts : ℝ) (l : List (Hold ℝ)) :
+    lastTemp Ts l = Ts ∨ ∃ h ∈ l, lastTemp Ts l = h.temp := by
+  induction l generalizing Ts with
+  | nil => left; rfl
+  | cons a t ih =>
+    right
+    rcases ih a.temp with h | ⟨x, hx, hxe⟩
+    · exact ⟨a, by simp, by simpa [lastTemp] using h⟩
+    · exact ⟨x, by simp [hx], by simpa [lastTemp] using hxe⟩
+
+/-- For user-level inputs in the property's range (positive rate and step, end ≤ hold
+temperatures ≤ start, non-negative durations and total time) the constructor succeeds, keeps
+exactly the listed holds (as a multiset) and yields a program satisfying `WF` — so every
+theorem above applies to every `OperatingConditions` object built from such inputs. -/
+theorem mkOpCond_wf (t_tot start stop rate dt : ℝ) (hs : List (Hold ℝ)) (hdt : 0 < dt) (hr : 0 < rate)
+    (ht : 0 ≤ t_tot) (hss : stop ≤ start)
+    (hrange : ∀ h ∈ hs, stop ≤ h.temp ∧ h.temp ≤ start ∧ 0 ≤ h.duration) :
+    ∃ oc, mkOpCond t_tot start stop rate (some hs) true = .ok oc ∧ WF oc dt ∧ oc.holds.Perm hs := by
+  have hne : rate ≠ 0 := ne_of_gt hr
+  refine ⟨⟨t_tot, start, stop, rate, orderHolds hs⟩, ?_, ?_, ?_⟩
+  · simp [mkOpCond, hne]
+  · have hperm : (orderHolds hs).Perm hs := List.mergeSort_perm hs holdGe
+    have hmem : ∀ h ∈ orderHolds hs, h ∈ hs := fun h hh => hperm.mem_iff.mp hh
+    refine ⟨hdt, hr, ht, ?_, ?_, ?_⟩
+    · exact desc_of_pairwise (orderHolds_desc hs) (fun h hh => (hrange h (hmem h hh)).2.1)
+    · rcases lastTemp_mem start (orderHolds hs) with h | ⟨x, hx, hxe⟩
+      · simp only; rw [h]; exact hss
+      · simp only; rw [hxe]; exact (hrange x (hmem x hx)).1
+    · intro x hx; exact (hrange x (hmem x hx)).2.2
+  · exact List.mergeSort_perm hs holdGe
+
 /-! ### the upstream (unpadded) profile is short: witness of finding F1 -/
 
 /-- `start 0, end -1/2, rate 1/2, dt 3, t_tot 1/2`: the concatenation truncated to `n`
@@ -253,8 +355,9 @@ theorem nonvacuous :
     have p : ([(⟨-10, 69⟩ : Hold ℝ), ⟨0, 1⟩].mergeSort holdGe).Perm [(⟨0, 1⟩ : Hold ℝ), ⟨-10, 69⟩] :=
       (List.mergeSort_perm _ holdGe).trans (List.Perm.swap _ _ _)
     exact List.Perm.eq_of_pairwise (fun a b _ _ h1 h2 => holdGe_antisymm a b h1 h2) s s2 p
-  refine ⟨by norm_num, by norm_num, by norm_num, ?_, ?_⟩
+  refine ⟨by norm_num, by norm_num, by norm_num, ?_, ?_, ?_⟩
   · rw [hperm]; simp [Desc]
   · rw [hperm]; simp [lastTemp]; norm_num
+  · rw [hperm]; intro x hx; simp at hx; rcases hx with rfl | rfl <;> norm_num
 
 end Snow.C05
